@@ -148,6 +148,6 @@ func TestC08_Salts(t *testing.T) {
 	if kit.Tier() == "thorough" {
 		maxConns = 300
 	}
-	p := kit.Prop[C08Case]{ID: "C08", Name: "Salts", Quick: 2000, Thorough: 60000, Gen: genC08(maxConns), Run: runC08}
+	p := kit.Prop[C08Case]{ID: "C08", Name: "Salts", Quick: 8000, Thorough: 300000, Gen: genC08(maxConns), Run: runC08}
 	p.Execute(t)
 }
